@@ -67,6 +67,11 @@ def counter_allocators(prog):
                 if k is not None and k.get("int") == 1 and any(callee_matches(callee_of(c), r"^alloc::vec::Vec::len$") for c in calls):
                     if self_fields_read(b, o.data["ops"][0]) & fields_pushed:
                         out.append(b)
+            elif o.kind == "call" and callee_matches(o.data, r"^alloc::vec::Vec::len$") and (self_fields_read(b, o.site.node["args"][0], through_calls=False) & fields_pushed):
+                # `let v = self.f.len(); self.f.push(..); v`: the length read before the push
+                if any(callee_matches(callee_of(s), r"^alloc::vec::Vec::push$") and b.dominates(o.site, s) and (self_fields_read(b, s.node["args"][0], through_calls=False) & self_fields_read(b, o.site.node["args"][0], through_calls=False)) for s in b.calls()):
+                    if b not in out:
+                        out.append(b)
     return out
 
 
@@ -164,6 +169,40 @@ def _label_roots(body, op):
     return out
 
 
+_UPDATE_RE = r"::(new_argument|remove_argument|new_attack|remove_attack|update_encoding|update_attacks_to_constraints_if_needed)$"
+
+
+def _reencode_family(prog, owner, reb):
+    """{path: body} of the encoder's own functions through which the selector-issuing function is reached (the re-encoding entry and
+    its wrappers), the four update methods excluded"""
+    fam = {strip_generics(reb.path): reb}
+    changed = True
+    while changed:
+        changed = False
+        for f in list(fam.values()):
+            for cs in prog.callers_of(f):
+                fn = prog.enclosing_fn(cs.body)
+                if fn.kind != "closure" and fn.impl and fn.impl.get("self_adt") == owner and not re.search(_UPDATE_RE, fn.path) and strip_generics(fn.path) not in fam:
+                    fam[strip_generics(fn.path)] = fn
+                    changed = True
+    return fam
+
+
+def _arg_label_roots(prog, b, x):
+    """label roots of what a call designates: ids (`usize` arguments traced to `get_argument(label).id()`) and labels handed over as such"""
+    got = set()
+    tgt = prog.body_for_callee(callee_of(x), b) if callee_of(x) else None
+    for i, a in enumerate(x.node["args"]):
+        if op_place(a) is None:
+            continue
+        ty = tgt.local_ty(i + 1) if tgt is not None and i + 1 <= tgt.n_args else ""
+        if ty == "usize":
+            got |= id_label_roots(prog, b, a)
+        elif re.match(r"^&T$|^&alloc::string::String$|^&usize$", ty):
+            got |= {x2 for x2 in _label_roots(b, a) if x2[0] in ("param", "upvar")}
+    return got
+
+
 def rule_selector_retirement(ctx):
     prog = ctx.prog
     r = ctx.rule(
@@ -234,15 +273,16 @@ def rule_selector_retirement(ctx):
             return any(c.is_discr and not c.negated and c.values == ["1"] for c in conditions(body, site.bb))
 
         chains = []
-        for x in reb.calls():
-            if _is_call_to(x, rb):
-                chains.append([(reb, x)])
-                continue
-            t = prog.body_for_callee(callee_of(x), reb) if callee_of(x) else None
-            if t is not None and t.kind != "closure" and t.impl and t.impl.get("self_adt") == owner:
-                for y in t.calls():
-                    if _is_call_to(y, rb):
-                        chains.append([(reb, x), (t, y)])
+        for member in _reencode_family(prog, owner, reb).values():
+            for x in member.calls():
+                if _is_call_to(x, rb):
+                    chains.append([(member, x)])
+                    continue
+                t = prog.body_for_callee(callee_of(x), member) if callee_of(x) else None
+                if t is not None and t.kind != "closure" and t.impl and t.impl.get("self_adt") == owner:
+                    for y in t.calls():
+                        if _is_call_to(y, rb):
+                            chains.append([(member, x), (t, y)])
         ok_arm = any(any(_on_some_arm(bd, st) for bd, st in ch) for ch in chains)
         r.check(bool(chains) and ok_arm, reb.id, "retire-unconditional-or-missing", "re-issuing retires the previous selector when one is recorded", "re-issuing constraints does not retire the previously recorded selector", reb.loc())
     # record of the new selector: table store Some(..) after the push
@@ -267,10 +307,11 @@ def rule_selector_retirement(ctx):
                 continue
             n += 1
             roots_to = _label_roots(b, s.node["args"][2])
-            recalls = [x for x in b.calls() if strip_generics(callee_name(callee_of(x)) or "") == strip_generics(reb.path) and b.reaches(s.bb, x.bb)]
+            fam = _reencode_family(prog, owner, reb)
+            recalls = [x for x in b.calls() if strip_generics(callee_name(callee_of(x)) or "") in fam and b.reaches(s.bb, x.bb)]
             ok = bool(recalls)
             for x in recalls:
-                got = id_label_roots(prog, b, x.node["args"][2])
+                got = _arg_label_roots(prog, b, x)
                 if not got or not got <= roots_to:
                     ok = False
             r.check(ok, b.id, "wrong-argument-reencoded", "after %s the attacked argument is re-encoded" % strip_generics(callee_name(c)).rsplit("::", 1)[-1], "after %s the constraints of the attacked argument are not re-issued (id does not derive from the `to` operand)" % strip_generics(callee_name(c)).rsplit("::", 1)[-1], s.loc())
@@ -292,7 +333,7 @@ def rule_selector_retirement(ctx):
                 for x in b.calls():
                     if x.bb != s.bb and b.reaches(s.bb, x.bb, avoid=heads) and not b.reaches(x.bb, s.bb, avoid=heads):
                         for op in _registration_operands(prog, b, x):
-                            got = id_label_roots(prog, b, op)
+                            got = id_label_roots(prog, b, op) or ({z for z in _label_roots(b, op) if z[0] in ("param", "upvar")} if _is_label_operand(b, op) else set())
                             if got and got <= roots_to:
                                 ok = True
                             elif got:
@@ -458,6 +499,17 @@ def _derives_from_attacked_of(body, op, prog):
     return has_iter and has_attacked and not has_attacker_only
 
 
+def _is_label_operand(b, op):
+    q = op_place(op)
+    if q is None:
+        return False
+    ty = b.local_ty(q["l"])
+    for e in q["p"]:
+        if isinstance(e, dict) and "ty" in e:
+            ty = e["ty"]
+    return bool(re.match(r"^&+T$|^&+alloc::string::String$", ty))
+
+
 def _registration_operands(prog, b, x):
     """operands a call may register for later re-encoding: the elements of the argument tuple of a closure call, or the
     integer arguments of a call of a local function / method that is not an operation of the framework or of the encoder"""
@@ -477,7 +529,7 @@ def _registration_operands(prog, b, x):
     tgt = prog.body_for_callee(cx, b)
     if tgt is None:
         return []
-    return [a for i, a in enumerate(x.node["args"]) if tgt.local_ty(i + 1) == "usize"]
+    return [a for i, a in enumerate(x.node["args"]) if tgt.local_ty(i + 1) == "usize" or re.match(r"^&T$", tgt.local_ty(i + 1))]
 
 
 def rule_reencode_on_removal(ctx):
@@ -498,10 +550,15 @@ def rule_reencode_on_removal(ctx):
     # (i) inside the encoder
     af_rm = [s for s in rm.calls() if callee_matches(callee_of(s), r"^aa::aa_framework::AAFramework::remove_argument$")]
     ok = False
+    fam = _reencode_family(prog, owner, reb)
     for x in prog.with_closures(rm):
         for s in x.calls():
-            if strip_generics(callee_name(callee_of(s)) or "") == strip_generics(reb.path):
-                idop = s.node["args"][2]
+            if strip_generics(callee_name(callee_of(s)) or "") in fam:
+                t_ = fam[strip_generics(callee_name(callee_of(s)) or "")]
+                idx_ = [i for i in range(len(s.node["args"])) if i + 1 <= t_.n_args and t_.local_ty(i + 1) == "usize"]
+                if not idx_:
+                    continue
+                idop = s.node["args"][idx_[0]]
                 # ids come from the collection iterated by the enclosing for_each
                 src_ok = False
                 if x is rm:
@@ -537,6 +594,16 @@ def rule_reencode_on_removal(ctx):
                     # the id comes from the iterator driving the loop
                     if _derives_from_attacked_of(b, op, prog):
                         reg = True
+                # `attacked ids .for_each(|id| registry.register(id))`: the registration sits in the closure of an adaptor call
+                cx = callee_of(x)
+                if cx is not None and callee_matches(cx, r"Iterator::(for_each|try_for_each)$") and x.node["args"]:
+                    for fa in cx.get("fn_args") or []:
+                        clo = prog.lib(fa)
+                        if clo is None:
+                            continue
+                        registers = any(_registration_operands(prog, clo, y) for y in clo.calls())
+                        if registers and _derives_from_attacked_of(b, x.node["args"][0], prog):
+                            reg = True
             r.check(reg, b.id + "|remove_argument", "attacked-not-registered", "the replay registers every argument attacked by the removed one before removing it", "the replay of a removal does not register the arguments attacked by the removed argument for re-encoding (the encoder's own re-encoding is switched off during replay)", s.loc())
     r.floor(n, 1, "callers of the selector-based encoder's remove_argument")
 
@@ -617,6 +684,17 @@ def rule_monotone_allocation(ctx):
                     okop = u.op in ("alloc::vec::Vec::push", "store") or u.op.startswith("index_mut>store-through") or u.op in ("index_mut>core::option::Option::take",)
                     if u.op == "store":
                         okop = False
+                    if u.op in ("alloc::vec::Vec::resize_with", "alloc::vec::Vec::resize"):
+                        # growth only: under the test `len <= n` (padding the table up to the solver's variable count)
+                        bb_ = u.site.body
+                        for c in conditions(bb_, u.site.bb):
+                            if c.is_discr or not c.is_true():
+                                continue
+                            for o in origins(bb_, c.place, transparent=()):
+                                if o.kind == "binop" and o.data["op"] in ("Le", "Lt"):
+                                    _, calls, _ = data_deps(bb_, o.data["ops"][0])
+                                    if any(callee_matches(callee_of(x), r"^alloc::vec::Vec::len$") and name in self_fields_read(bb_, x.node["args"][0], through_calls=False) for x in calls):
+                                        okop = True
                     r.check(okop, "%s.%s|%s" % (path, name, u.fn.path), "table-op:%s" % u.op, "table %s: %s" % (name, u.op), "variable table %s is modified by %s outside a full re-encoding" % (name, u.op), u.site.loc())
     r.floor(n, 10, "writes to allocation state of the dynamic encoders")
 
